@@ -6,6 +6,7 @@ schedule (one `send`/`throw` on a chosen task = one `Op.sched` / `Op.cancel` of 
 The same case runs on `contextlib.asynccontextmanager` / `contextlib.AsyncContextDecorator`.
 """
 import contextlib
+import functools
 import itertools
 import sys
 import warnings
@@ -173,12 +174,16 @@ def _build_plain(run, lib):
     return Plain()
 
 
+# keyword arguments of every call: names a wrapper implementation is likely to use for its own parameters
+CALL_KW = {"func": 1, "self": 2, "cm": 3, "args": 4, "kwds": 5, "function": 6, "instance": 7}
+
+
 def _decorated(run, lib):
     calls = run.case["calls"]
     cm = _build_gen(run, lib) if run.case["gb"] else _build_plain(run, lib)
 
     async def func(c, *rest, **kw):
-        ok = rest == ("r",) and kw == {"kw": c}
+        ok = rest == ("r",) and kw == dict(CALL_KW, kw=c)
         run.log.append([c, None, "bodyBegin"] if ok else [c, None, "bodyBegin", "BAD-ARGS"])
         cfg = calls[c]
         try:
@@ -197,12 +202,21 @@ def _decorated(run, lib):
     async def func2(c, *rest, **kw):
         return await func(c, *rest, **kw)
 
-    # ONE manager object decorates TWO functions (`traced = ctx(); @traced def f...; @traced def g...`): calls of either
-    # must each get a fresh context, whichever function is called first
-    wrapped = (cm(func), cm(func2))
+    class AsyncCallObj:                      # an object whose `__call__` is `async def`: not a coroutine FUNCTION
+        async def __call__(self, c, /, *rest, **kw):
+            return await func(c, *rest, **kw)
+
+    @functools.wraps(func)
+    def plain_wrapper(c, *rest, **kw):       # an `async def` below another decorator whose wrapper is a plain `def`
+        return func(c, *rest, **kw)
+
+    # ONE manager object decorates SEVERAL callables (`traced = ctx(); @traced def f...; @traced def g...`): calls of any
+    # of them must each get a fresh context, whichever is called first; the callables come in every awaitable-returning
+    # flavour (the decorator must await what the call returns, whatever `iscoroutinefunction` says about the callable)
+    wrapped = (cm(func), cm(func2), cm(AsyncCallObj()), cm(plain_wrapper), cm(functools.partial(func2)))
 
     def call(c, *rest, **kw):
-        return wrapped[c % 2](c, *rest, **kw)
+        return wrapped[c % len(wrapped)](c, *rest, **kw)
 
     return call
 
@@ -212,7 +226,7 @@ def _execute(case, lib, only=None):
     run = _Run(case)
     func = _decorated(run, lib)
     n = len(case["calls"])
-    coros = [func(c, "r", kw=c) for c in range(n)]
+    coros = [func(c, "r", **dict(CALL_KW, kw=c)) for c in range(n)]
     done = [False] * n
     outs = []
     for op in case["ops"]:
